@@ -198,7 +198,7 @@ def c08(tier, seed):
         "C08", tier, seed, suites.c08_cases(tier, seed), "reference",
         functions_encoded=["generated builder structs (fields, generic bounds) and accessors of keys whose locales mix value kinds"],
         bounds="3 locales, one key = any triple of kinds from string / interpolation / component / range / plural / number / foreign key renaming the count / foreign key fixing the count / null; 5 count types; plus 2 conflicting projects that must be rejected. Decided: rendered text for all locales and arguments (z3), builder field set == union of syntactic occurrences, count bound == declared type. Outside: that rustc accepts exactly that argument set (typed_builder).",
-        extra_key_check=_c08_extra)
+        extra_key_check=_c08_extra, validate=(12 if tier == "quick" else 80), validate_per_project=True)
 
 
 CHECKS.update({"C18": c18, "C08": c08})
